@@ -525,70 +525,86 @@ func c12R2(c *Ctx, fns []*ssa.Function) {
 		gzr := ResultOf(CallsTo(E, "compress/gzip.NewReader")[0], 0)
 		parses := CallsTo(E, "digest.Parse")
 		vers := CallsTo(E, "(digest.Digest).Verifier")
-		if len(parses) == 0 || len(vers) == 0 || gzr == nil {
+		chkIdx := -1
+		inline := len(parses) > 0 && len(vers) > 0
+		if !inline && gzr != nil {
+			// the parse / verifier / tee wiring may live in a helper that returns (reader, verifier)
+			for _, call := range Calls(E, func(string) bool { return true }) {
+				H := StaticCallee(call)
+				hc, isCall := call.(*ssa.Call)
+				if H == nil || !isCall || fnPkgPath(H) != fnPkgPath(E) || len(CallsTo(H, "digest.Parse")) == 0 || len(CallsTo(H, "(digest.Digest).Verifier")) == 0 {
+					continue
+				}
+				chkIdx = c12R2ViaHelper(c, R2, E, xcall, gzr, hc, H)
+			}
+		}
+		if !inline && chkIdx == -1 {
 			c.Violation(R2, en+"|reader-tees-into-verifier", xcall.Pos(), "the checksum is not parsed into a verifier: the uncompressed digest recorded at pack time is never checked")
 			continue
 		}
-		verifier := vers[0].(*ssa.Call)
-		okV := false
-		for _, p := range parses {
-			if d := ResultOf(p, 0); d != nil && c11DerivesFrom(verifier.Call.Args[0], map[ssa.Value]bool{d: true}) {
-				for _, r := range Roots(p.Common().Args[0]) {
-					if _, isP := r.(*ssa.Parameter); isP {
-						okV = true
-					}
-				}
-			}
-		}
-		// reader argument of the tar extractor
-		var reader ssa.Value
-		for _, a := range xcall.Call.Args {
-			if types.IsInterface(a.Type()) {
-				reader = a
-			}
-		}
-		var tee *ssa.Call
-		okR := okV && reader != nil
-		if reader != nil {
-			for _, r := range Roots(reader) {
-				if call, ok := r.(*ssa.Call); ok && CalleeName(call) == "io.TeeReader" {
-					if c11DerivesFrom(call.Call.Args[0], map[ssa.Value]bool{gzr: true}) && c11DerivesFrom(call.Call.Args[1], map[ssa.Value]bool{verifier: true}) {
-						tee = call
-						continue
-					}
-					okR = false
-				} else if !c11DerivesFrom(r, map[ssa.Value]bool{gzr: true}) {
-					okR = false
-				}
-			}
-		}
-		if tee == nil {
-			okR = false
-		}
-		// once the checksum parsed, the only reader that reaches the extractor is the tee
-		if okR {
+		if inline {
+			chkIdx = c12ParamIndexReaching(E, "digest.Parse", 0)
+			verifier := vers[0].(*ssa.Call)
+			okV := false
 			for _, p := range parses {
-				if e := ErrOf(p); e != nil {
-					ne, _, _ := NilTests(E, Aliases(e))
-					if len(ne) == 0 {
+				if d := ResultOf(p, 0); d != nil && c11DerivesFrom(verifier.Call.Args[0], map[ssa.Value]bool{d: true}) {
+					for _, r := range Roots(p.Common().Args[0]) {
+						if _, isP := r.(*ssa.Parameter); isP {
+							okV = true
+						}
+					}
+				}
+			}
+			// reader argument of the tar extractor
+			var reader ssa.Value
+			for _, a := range xcall.Call.Args {
+				if types.IsInterface(a.Type()) {
+					reader = a
+				}
+			}
+			var tee *ssa.Call
+			okR := okV && reader != nil
+			if reader != nil {
+				for _, r := range Roots(reader) {
+					if call, ok := r.(*ssa.Call); ok && CalleeName(call) == "io.TeeReader" {
+						if c11DerivesFrom(call.Call.Args[0], map[ssa.Value]bool{gzr: true}) && c11DerivesFrom(call.Call.Args[1], map[ssa.Value]bool{verifier: true}) {
+							tee = call
+							continue
+						}
+						okR = false
+					} else if !c11DerivesFrom(r, map[ssa.Value]bool{gzr: true}) {
 						okR = false
 					}
-					for _, edge := range ne {
-						if reach(edge.To, 0, xcall, newCut().Instr(tee)) {
+				}
+			}
+			if tee == nil {
+				okR = false
+			}
+			// once the checksum parsed, the only reader that reaches the extractor is the tee
+			if okR {
+				for _, p := range parses {
+					if e := ErrOf(p); e != nil {
+						ne, _, _ := NilTests(E, Aliases(e))
+						if len(ne) == 0 {
 							okR = false
 						}
-						// and the value selected on that path is the tee (phi edges from the tee's block)
-						if phi, ok := reader.(*ssa.Phi); ok {
-							for i, pred := range phi.Block().Preds {
-								if reach(edge.To, 0, pred.Instrs[len(pred.Instrs)-1], nil) || pred == edge.To {
-									okEdge := false
-									for _, r := range Roots(phi.Edges[i]) {
-										if r == ssa.Value(tee) {
-											okEdge = true
+						for _, edge := range ne {
+							if reach(edge.To, 0, xcall, newCut().Instr(tee)) {
+								okR = false
+							}
+							// and the value selected on that path is the tee (phi edges from the tee's block)
+							if phi, ok := reader.(*ssa.Phi); ok {
+								for i, pred := range phi.Block().Preds {
+									if reach(edge.To, 0, pred.Instrs[len(pred.Instrs)-1], nil) || pred == edge.To {
+										okEdge := false
+										for _, r := range Roots(phi.Edges[i]) {
+											if r == ssa.Value(tee) {
+												okEdge = true
+											}
 										}
-									}
-									if !okEdge && tee.Block().Dominates(pred) {
-										okR = false
+										if !okEdge && tee.Block().Dominates(pred) {
+											okR = false
+										}
 									}
 								}
 							}
@@ -596,65 +612,64 @@ func c12R2(c *Ctx, fns []*ssa.Function) {
 					}
 				}
 			}
-		}
-		c.Check(R2, en+"|reader-tees-into-verifier", xcall.Pos(), okR,
-			ifelse(okR, "when the checksum parses, the tar extractor reads through io.TeeReader(gzip reader, verifier)", "the bytes the tar extractor consumes are not fed to the verifier of the recorded digest: a tampered tar stream is unpacked without notice"))
-		r := ErrFlow(xcall, ErrFlowOpts{})
-		c.Check(R2, en+"|extract-error-surfaces", xcall.Pos(), r.OK, ifelse(r.OK, r.How, r.Detail))
-		// nil return dominated by Verified() when a verifier exists
-		var verT, noVer []Edge
-		var verRecvs []ssa.Value
-		for _, i := range Ifs(E) {
-			cond, t, _ := ifEdges(i)
-			recv, _ := c12Invoke(cond, "Verified")
-			if recv == nil {
-				continue
-			}
-			// the value consulted at the end is the very verifier the tee feeds
-			// (through the phi); a value that can only be nil is not a verifier
-			okRecv, hasVer := true, false
-			for _, rt := range Roots(recv) {
-				if k, isConst := rt.(*ssa.Const); isConst && k.Value == nil {
+			c.Check(R2, en+"|reader-tees-into-verifier", xcall.Pos(), okR,
+				ifelse(okR, "when the checksum parses, the tar extractor reads through io.TeeReader(gzip reader, verifier)", "the bytes the tar extractor consumes are not fed to the verifier of the recorded digest: a tampered tar stream is unpacked without notice"))
+			r := ErrFlow(xcall, ErrFlowOpts{})
+			c.Check(R2, en+"|extract-error-surfaces", xcall.Pos(), r.OK, ifelse(r.OK, r.How, r.Detail))
+			// nil return dominated by Verified() when a verifier exists
+			var verT, noVer []Edge
+			var verRecvs []ssa.Value
+			for _, i := range Ifs(E) {
+				cond, t, _ := ifEdges(i)
+				recv, _ := c12Invoke(cond, "Verified")
+				if recv == nil {
 					continue
 				}
-				if rt != ssa.Value(verifier) {
-					okRecv = false
-				} else {
-					hasVer = true
+				// the value consulted at the end is the very verifier the tee feeds
+				// (through the phi); a value that can only be nil is not a verifier
+				okRecv, hasVer := true, false
+				for _, rt := range Roots(recv) {
+					if k, isConst := rt.(*ssa.Const); isConst && k.Value == nil {
+						continue
+					}
+					if rt != ssa.Value(verifier) {
+						okRecv = false
+					} else {
+						hasVer = true
+					}
+				}
+				if okRecv && hasVer {
+					verRecvs = append(verRecvs, recv)
+					verT = append(verT, t)
+					ne, _, _ := NilTests(E, map[ssa.Value]bool{recv: true})
+					noVer = append(noVer, ne...)
 				}
 			}
-			if okRecv && hasVer {
-				verRecvs = append(verRecvs, recv)
-				verT = append(verT, t)
-				ne, _, _ := NilTests(E, map[ssa.Value]bool{recv: true})
-				noVer = append(noVer, ne...)
-			}
-		}
-		atoms := c11SuccessAtoms(E)
-		okVer := len(verT) > 0 && len(atoms) > 0 && c11AllAtomsPass(atoms, func() *cut { return newCut().Edges(verT...).Edges(noVer...) })
-		// the no-verifier edge is legitimate only when the checksum was absent or
-		// unparsable: behind the parse-success edge a nil return needs Verified()
-		if okVer {
-			for _, p := range parses {
-				e := ErrOf(p)
-				if e == nil {
-					okVer = false
-					continue
-				}
-				ne, _, _ := NilTests(E, Aliases(e))
-				for _, edge := range ne {
-					for _, rv := range verRecvs {
-						if !c12NonNilBehind(rv, edge, verifier, 0) {
-							okVer = false
+			atoms := c11SuccessAtoms(E)
+			okVer := len(verT) > 0 && len(atoms) > 0 && c11AllAtomsPass(atoms, func() *cut { return newCut().Edges(verT...).Edges(noVer...) })
+			// the no-verifier edge is legitimate only when the checksum was absent or
+			// unparsable: behind the parse-success edge a nil return needs Verified()
+			if okVer {
+				for _, p := range parses {
+					e := ErrOf(p)
+					if e == nil {
+						okVer = false
+						continue
+					}
+					ne, _, _ := NilTests(E, Aliases(e))
+					for _, edge := range ne {
+						for _, rv := range verRecvs {
+							if !c12NonNilBehind(rv, edge, verifier, 0) {
+								okVer = false
+							}
 						}
 					}
 				}
 			}
+			c.Check(R2, en+"|success-dominated-by-verified", E.Pos(), okVer,
+				ifelse(okVer, "every nil return passes the Verified()==true edge or the no-verifier edge", "the extractor can return nil on the checksum-parsed path without Verified()==true of the verifier that the TeeReader feeds (the value tested at the end is not that verifier, or the test is bypassed): a directory whose tar digest mismatches is accepted"))
 		}
-		c.Check(R2, en+"|success-dominated-by-verified", E.Pos(), okVer,
-			ifelse(okVer, "every nil return passes the Verified()==true edge or the no-verifier edge", "the extractor can return nil on the checksum-parsed path without Verified()==true of the verifier that the TeeReader feeds (the value tested at the end is not that verifier, or the test is bypassed): a directory whose tar digest mismatches is accepted"))
 		// callers
-		chkIdx := c12ParamIndexReaching(E, "digest.Parse", 0)
 		gzIdx := c12ParamIndexReaching(E, "os.Open", 0)
 		n := 0
 		for _, g := range fns {
@@ -708,6 +723,148 @@ func c12R2(c *Ctx, fns []*ssa.Function) {
 			c.LostAnchor(R2, "caller of the gzip extractor "+en)
 		}
 	}
+}
+
+// c12R2ViaHelper: the gzip extractor E obtains (reader, verifier) from a helper
+// H(reader, checksum).  H is summarised per Return: it yields either
+// (the reader unchanged, nil) — only where the checksum did not parse — or
+// (TeeReader(reader, V), V) with V the verifier of the parsed checksum; E must
+// hand H's reader result to the tar extractor and consult H's verifier result.
+// Returns the index of E's parameter that carries the checksum (-2 if unknown).
+func c12R2ViaHelper(c *Ctx, R2 string, E *ssa.Function, xcall *ssa.Call, gzr ssa.Value, hcall *ssa.Call, H *ssa.Function) int {
+	en := FnName(E)
+	res := H.Signature.Results()
+	rIdx, vIdx := -1, -1
+	for i := 0; i < res.Len(); i++ {
+		t := res.At(i).Type()
+		if n, ok := t.(*types.Named); ok && n.Obj().Name() == "Verifier" {
+			vIdx = i
+		} else if types.IsInterface(t) {
+			rIdx = i
+		}
+	}
+	parses := CallsTo(H, "digest.Parse")
+	verifier := CallsTo(H, "(digest.Digest).Verifier")[0].(*ssa.Call)
+	hChk := c12ParamIndexReaching(H, "digest.Parse", 0)
+	okH := rIdx >= 0 && vIdx >= 0 && hChk >= 0
+	var hReader *ssa.Parameter
+	for _, prm := range H.Params {
+		if types.IsInterface(prm.Type()) {
+			hReader = prm
+		}
+	}
+	if hReader == nil {
+		okH = false
+	}
+	var tee *ssa.Call
+	if okH {
+		okH = false
+		for _, p := range parses {
+			if d := ResultOf(p, 0); d != nil && c11DerivesFrom(verifier.Call.Args[0], map[ssa.Value]bool{d: true}) {
+				okH = true
+			}
+		}
+		for _, t := range CallsTo(H, "io.TeeReader") {
+			tc := t.(*ssa.Call)
+			if c11DerivesFrom(tc.Call.Args[0], map[ssa.Value]bool{hReader: true}) && c11DerivesFrom(tc.Call.Args[1], map[ssa.Value]bool{verifier: true}) {
+				tee = tc
+			}
+		}
+		if tee == nil {
+			okH = false
+		}
+	}
+	if okH {
+		var parseOK []Edge
+		for _, p := range parses {
+			if e := ErrOf(p); e != nil {
+				ne, _, _ := NilTests(H, Aliases(e))
+				parseOK = append(parseOK, ne...)
+			}
+		}
+		if len(parseOK) == 0 {
+			okH = false
+		}
+		for _, ret := range Returns(H) {
+			rv, rr := ret.Results[vIdx], ret.Results[rIdx]
+			for _, rt := range Roots(rv) {
+				if k, isConst := rt.(*ssa.Const); !(isConst && k.Value == nil) && rt != ssa.Value(verifier) {
+					okH = false
+				}
+			}
+			for _, rt := range Roots(rr) {
+				if rt != ssa.Value(tee) && !c11DerivesFrom(rt, map[ssa.Value]bool{hReader: true}) {
+					okH = false
+				}
+			}
+			for _, pe := range parseOK {
+				if ret.Block() != pe.To && !reach(pe.To, 0, ret, nil) {
+					continue
+				}
+				// behind the parse-success edge the pair is (tee, verifier)
+				if !c12NonNilBehind(rv, pe, verifier, 0) || !c12NonNilBehind(rr, pe, tee, 0) {
+					okH = false
+				}
+			}
+		}
+	}
+	// E's side
+	var reader, hArgReader ssa.Value
+	for _, a := range xcall.Call.Args {
+		if types.IsInterface(a.Type()) {
+			reader = a
+		}
+	}
+	if hReader != nil {
+		for i, prm := range H.Params {
+			if prm == hReader && i < len(hcall.Call.Args) {
+				hArgReader = hcall.Call.Args[i]
+			}
+		}
+	}
+	isRes := func(v ssa.Value, idx int) bool {
+		rs := Roots(v)
+		if len(rs) != 1 {
+			return false
+		}
+		ex, ok := rs[0].(*ssa.Extract)
+		return ok && ex.Tuple == ssa.Value(hcall) && ex.Index == idx
+	}
+	okR := okH && reader != nil && isRes(reader, rIdx) && hArgReader != nil && c11DerivesFrom(hArgReader, map[ssa.Value]bool{gzr: true}) && MustPass(xcall, newCut().Instr(hcall))
+	c.Check(R2, en+"|reader-tees-into-verifier", xcall.Pos(), okR,
+		ifelse(okR, "the tar extractor reads the reader returned by "+FnName(H)+", which is io.TeeReader(gzip reader, verifier) whenever the checksum parses",
+			"the bytes the tar extractor consumes are not fed to the verifier of the recorded digest: a tampered tar stream is unpacked without notice"))
+	r := ErrFlow(xcall, ErrFlowOpts{})
+	c.Check(R2, en+"|extract-error-surfaces", xcall.Pos(), r.OK, ifelse(r.OK, r.How, r.Detail))
+	var verT, noVer []Edge
+	for _, i := range Ifs(E) {
+		cond, t, _ := ifEdges(i)
+		recv, _ := c12Invoke(cond, "Verified")
+		if recv == nil || !isRes(recv, vIdx) {
+			continue
+		}
+		verT = append(verT, t)
+		ne, _, _ := NilTests(E, Aliases(Roots(recv)[0]))
+		noVer = append(noVer, ne...)
+	}
+	atoms := c11SuccessAtoms(E)
+	okVer := okH && len(verT) > 0 && len(atoms) > 0 && c11AllAtomsPass(atoms, func() *cut { return newCut().Edges(verT...).Edges(noVer...) })
+	c.Check(R2, en+"|success-dominated-by-verified", E.Pos(), okVer,
+		ifelse(okVer, "every nil return passes the Verified()==true edge of the verifier returned by "+FnName(H)+" or its nil edge (nil only where the checksum did not parse)",
+			"the extractor can return nil on the checksum-parsed path without Verified()==true of the verifier that the TeeReader feeds: a directory whose tar digest mismatches is accepted"))
+	// which parameter of E carries the checksum
+	if hChk >= 0 && hChk < len(hcall.Call.Args) {
+		for _, rt := range Roots(hcall.Call.Args[hChk]) {
+			if prm, ok := rt.(*ssa.Parameter); ok {
+				for i, q := range E.Params {
+					if q == prm {
+						return i
+					}
+				}
+			}
+		}
+	}
+	return -2
 }
 
 // c12NonNilBehind: on every path that takes edge `from` (the checksum parsed),
@@ -924,14 +1081,25 @@ func c12R4(c *Ctx, fns []*ssa.Function) {
 		return
 	}
 	pn, rn := FnName(push), FnName(RD)
+	// callees of the restorer, its closures and (one level) its in-package helpers: the per-successor
+	// step may be an immediately-invoked closure or an extracted method
 	rdCallees := map[*ssa.Function]bool{}
-	for _, f := range append([]*ssa.Function{RD}, Anons(RD)...) {
-		for _, call := range Calls(f, func(string) bool { return true }) {
-			if g := StaticCallee(call); g != nil {
+	var collect func(f *ssa.Function, depth int)
+	collect = func(f *ssa.Function, depth int) {
+		for _, h := range append([]*ssa.Function{f}, Anons(f)...) {
+			for _, call := range Calls(h, func(string) bool { return true }) {
+				g := StaticCallee(call)
+				if g == nil || rdCallees[g] {
+					continue
+				}
 				rdCallees[g] = true
+				if depth > 0 && g != push && fnPkgPath(g) == pkgPath(c11Pkg) && g.Object() != nil && !g.Object().Exported() {
+					collect(g, depth-1)
+				}
 			}
 		}
 	}
+	collect(RD, 1)
 	var rdCalls, pushCalls []ssa.CallInstruction
 	for _, call := range Calls(push, func(string) bool { return true }) {
 		g := StaticCallee(call)
@@ -972,7 +1140,18 @@ func c12R4(c *Ctx, fns []*ssa.Function) {
 	n := 0
 	for _, call := range Calls(RD, func(string) bool { return true }) {
 		g := StaticCallee(call)
-		if g == nil || g.Parent() != RD || ErrResultIndex(g.Signature) < 0 {
+		if g == nil || ErrResultIndex(g.Signature) < 0 || fnPkgPath(g) != pkgPath(c11Pkg) {
+			continue
+		}
+		// the per-successor step: a closure of the restorer or an in-package helper that reaches the push helper
+		isStep := false
+		for _, pc := range pushCalls {
+			ph := StaticCallee(pc)
+			if g == ph || reachesCall(g, 1, func(_ string, cc ssa.CallInstruction) bool { return StaticCallee(cc) == ph }) {
+				isStep = true
+			}
+		}
+		if !isStep {
 			continue
 		}
 		n++
@@ -980,7 +1159,7 @@ func c12R4(c *Ctx, fns []*ssa.Function) {
 		c.Check(R4, rn+"|tolerates-only-notfound-and-duplicate", call.Pos(), r.OK, ifelse(r.OK, r.How, "the restorer swallows an error other than ErrNotFound / ErrDuplicateName: a duplicate that could not be written is silently missing: "+r.Detail))
 	}
 	if n == 0 {
-		c.Undecided(R4, rn+"|tolerates-only-notfound-and-duplicate", RD.Pos(), "the per-successor restore step is not an immediately-invoked closure any more; shape not recognised")
+		c.Undecided(R4, rn+"|tolerates-only-notfound-and-duplicate", RD.Pos(), "no call in the restorer reaches the push helper; shape not recognised")
 	}
 	c12R4EveryNamedSuccessor(c, R4, RD, rdCallees, pushCalls)
 }
@@ -1023,8 +1202,8 @@ func c12R4EveryNamedSuccessor(c *Ctx, R4 string, RD *ssa.Function, rdCallees map
 			continue
 		}
 		direct := pushHelpers[g]
-		viaClosure := g.Parent() == RD && reachesCall(g, 1, func(_ string, cc ssa.CallInstruction) bool { return pushHelpers[StaticCallee(cc)] })
-		if direct || viaClosure {
+		viaHelper := fnPkgPath(g) == fnPkgPath(RD) && reachesCall(g, 1, func(_ string, cc ssa.CallInstruction) bool { return pushHelpers[StaticCallee(cc)] })
+		if direct || viaHelper {
 			steps = append(steps, call.(ssa.Instruction))
 		}
 	}
